@@ -58,6 +58,8 @@ def tasks(tier, seed):
                 fl = c['genflags']
                 for i in range(0, len(fl), 64):
                     T.append({'name': 'layout gen%d o%d d%d N%d flags#%d' % (mode, o, d, N, i // 64), 'order': o, 'dim': d, 'N': N, 'kind': 'gen%d' % mode, 'flags': fl[i:i + 64], 'seed': seed, 'timeout': to})
+    for o in c['orders']:
+        T.append({'name': 'time-point init o%d' % o, 'fn': 'run_tp', 'order': o, 'seed': seed, 'timeout': to})
     for (o, d) in c['hist']:
         seqs = []
         for n in range(1, c['histlen'] + 1):
@@ -201,6 +203,50 @@ def run_task(t):
                 sc._rec('round trip: reference durations in the region (%s) force the recorded toTau/toTime branches' % ('h > 1' if region == 'hi' else '1e-3 <= h <= 1'), 'real', r.status if r.status != 'sat' else 'sat', r.t,
                         h=hash(('rt', region, N)), confirmed=False, model=r.model, note='inconsistent branch pair reachable')
             out.append(sc)
+    return out
+
+
+@C.run_scenarios
+def run_tp(t):
+    """setInitState(time points): start time == first time point, reference durations == differences; layout as for the duration overload"""
+    o = t['order']
+    out = []
+    for d in (1, 2):
+        tu = build.opt_tu(o, d, 'quad', 'ident')
+        for N in (1, 2, 3):
+            for fm in (0, 255, 0b00010001):
+                fl = X.flags_from_int(fm)
+                rng = C.rng_for(t['seed'], 'C09tp', o, d, N, fm)
+                s = D.Script()
+                op = X.OptProblem(s, '', o, d, N, rng)
+                pr = op.pr
+                q = [s.var('q%d' % i, 0.4 + 1.5 * i + 0.1 * (i % 2)) for i in range(N + 1)]
+                pts, blocks, n = X.ref_layout(o, N, d, fl, X.dof_ident(d))
+                xs = op.xvars(n, tau_sign=1)
+                s.add('opt.new O')
+                s.add('opt.init O I tp', N + 1, *q, N + 1, *pr.flatP(), pr.bcname)
+                X.set_flags(s, 'O', fl)
+                s.add('opt.steps O 1')
+                s.add('opt.dim O dim')
+                s.add('opt.guess O G')
+                for j in range(n):
+                    s.add('bind gg%d G.%d' % (j, j))
+                X.eval_cmd(s, 'O', 'E2', ['gg%d' % j for j in range(n)], costs='o2', tag='e0')
+                s.add('opt.spline O SP2')
+                so = {'q%d' % i: 0.4 + 1.5 * i + 0.1 * (i % 2) for i in range(N + 1)}
+                sc = O.Scenario(ID, '%s d%d N%d flags=%s' % (t['name'], d, N, X.flags_str(fl)), tu, s, timeout=t['timeout'], shadow_override=so)
+                E = sc.enc
+                g = sc.dag
+                sc.assume += [E.var('q%d' % (i + 1)) - E.var('q%d' % i) > 1 for i in range(N)]
+                sc.int_eq('initialisation accepted', 'I.ok', 1)
+                sc.int_eq('dimension == reference', 'dim', n)
+                sc.uf_node_eq('exposed spline starts at the first time point', 'SP2.start', g.varid['q0'])
+                for i in range(N):
+                    sc.real_eq('round trip: decode(initial guess) duration %d == difference of the time points' % i, 'SP2.seg.%d' % i, E.add(E.node(g.varid['q%d' % (i + 1)]), E.node(g.varid['q%d' % i]), -1))
+                for i in range(N + 1):
+                    for dd in range(d):
+                        sc.uf_node_eq('round trip: waypoint %d[%d]' % (i, dd), 'SP2.pts.%d.%d' % (i, dd), g.varid[pr.P[i][dd]])
+                out.append(sc)
     return out
 
 
